@@ -16,4 +16,18 @@ def parseRelMapFile (data : Bytes) : M (Option RelMapFile) := do
   let crc ← (if data.length ≥ 504 + 4 then uN 4 data 504 else pure 0 : M Nat)
   return some { magic, numMappings, mappings, crc }
 
+/-- ParseRelMapFile between fixes/control/09 and fixes/control/21: the layout chosen by `len(data) == 524`.  Kept only
+for the witnesses `witness_R21_*` in Props/C20. -/
+def parseRelMapFileBySize (data : Bytes) : M (Option RelMapFile) := do
+  if data.length < 512 then return none
+  let magic ← uN 4 data 0
+  if magic ≠ 0x592717 then return none
+  let maxMappings : Nat := if data.length = 524 then 64 else 62
+  let numMappings := toSigned 32 (← uN 4 data 4)
+  if numMappings < 0 ∨ numMappings > maxMappings then return none
+  let mappings ← relMapLoop data numMappings.toNat 8
+  let crcOffset := 8 + maxMappings * 8
+  let crc ← (if data.length ≥ crcOffset + 4 then uN 4 data crcOffset else pure 0 : M Nat)
+  return some { magic, numMappings, mappings, crc }
+
 end PgVerif.Model.Orig
